@@ -22,10 +22,10 @@ from lib import core
 PID = "C13"
 RULE = ("case = (matrix a, matrix b, ignore settings (comments, attributes, definitions, value tables) - all 16 combinations); "
         "b is a copy of a, or a with exactly one edit from the catalogue of compared properties applied to a random object "
-        "(frame: added/deleted/length/id/format/name/comment/sender/attribute/signal group; signal: added/deleted/start/width/"
+        "(frame: added/deleted/length/id/format/name/comment/sender/attribute/signal group; signal: added/deleted/renamed/start/width/"
         "factor/offset/min/max/byte order/sign/multiplex/unit/comment/receiver/attribute/value table; ECU: added/deleted/comment/"
         "attribute; definitions of all four kinds: added/deleted/definition/default; global attribute; global value table), or an "
-        "The two matrices are compared in both orders, and once more, as the same objects. unrelated matrix; both operand orders are compared. Numbers include values around 2^32 (the next half step differs in the tenth digit), value texts include characters outside ASCII, frames added with the number of an existing frame in the other format, definitions edited inside their type (ENUM values, INT range). One case in five is compared after one to three other comparisons (other operands, other ignore settings) in the same process. A second stream goes through the command line canmatrix.cli.compare: the two matrices (made expressible in DBC: every attribute defined, one multiplexer per frame) are written to files, the case describes what a reader gets from the files, and cli_compare is invoked in a forked child process - by main(args), by click's CliRunner or by its callback, switches -c/-a/-t in short or long spelling - on a b and on b a, after zero to three earlier invocations with other switches, other operand orders or --frames; the printed report is held against the library comparison of the same files under the ignore settings the switches stand for, and is itself the observation when it differs. The meaning of the switches (op flags) is observed on twelve probe file pairs that differ in one comment / attribute / definition / value table entry, again after earlier invocations. Non-trivial = distinct case with b != a.")
+        "The two matrices are compared in both orders, and once more, as the same objects. unrelated matrix; both operand orders are compared. Numbers include values around 2^32 (the next half step differs in the tenth digit), value texts include characters outside ASCII, frames added with the number of an existing frame in the other format, definitions edited inside their type (ENUM values, INT range). Frame lengths are 0..8, every length up to 64 bytes and a few longer ones (a length edit goes to a usual length, to a neighbour one or two bytes away, or to any length); signals of longer frames start anywhere in them. Signals share their bits (start, width, byte order) with other signals of the frame - other multiplexer groups or plain overlaps - in generated frames, as the added signal (signal.add-overlay) and as the deleted one; signals are renamed; added frames, signals, ECUs, definitions, value tables and signal groups are also copies of existing ones under a new name. One case in five is compared after one to three other comparisons (other operands, other ignore settings) in the same process. A second stream goes through the command line canmatrix.cli.compare: the two matrices (made expressible in DBC: every attribute defined, one multiplexer per frame) are written to files, the case describes what a reader gets from the files, and cli_compare is invoked in a forked child process - by main(args), by click's CliRunner or by its callback, switches -c/-a/-t in short or long spelling - on a b and on b a, after zero to three earlier invocations with other switches, other operand orders or --frames; the printed report is held against the library comparison of the same files under the ignore settings the switches stand for, and is itself the observation when it differs. The meaning of the switches (op flags) is observed on twelve probe file pairs that differ in one comment / attribute / definition / value table entry, again after earlier invocations. Non-trivial = distinct case with b != a.")
 PARTIAL = ["numeric fields are compared as doubles by the code; generated values are multiples of 0.5 (exactly representable), "
            "modelled as integers", "the ref/changes payload of result nodes (object references, old/new texts) is not compared, only "
            "(result, type) and the tree shape", "cancompare's stdout is compared as text with dump_result of the library's tree for the same files; when it differs, the tree read back "
@@ -40,26 +40,66 @@ ECUS = ["E1", "E2", "Gw"]
 BIG = 2 * (2 ** 32 - 1)        # (in halves) 4294967295: the next half step differs from it in the tenth significant digit only
 ANAMES = ["GenA", "Note", "Mode"]
 D = decimal.Decimal
+# frame lengths: classic CAN (0..8), every length up to a CAN FD frame (64) - the data length code on the bus is a lossy function of
+# these - and longer frames (multi-packet / container)
+LENGTHS = list(range(0, 65)) + [100, 256, 1785]
+
+
+def gen_length(rng):
+    return rng.choice([1, 2, 8, 8, 12]) if rng.random() < 0.5 else rng.choice(LENGTHS)
+
+
+def other_length(rng, cur):
+    """another frame length: one of the usual ones, a neighbour of the current one (one or two bytes more or less), or any length"""
+    r = rng.random()
+    if r < 0.35:
+        opts = [1, 2, 8, 12, 16]
+    elif r < 0.7:
+        opts = [cur + d for d in (-2, -1, 1, 2) if cur + d >= 0]
+    else:
+        opts = LENGTHS
+    return rng.choice([o for o in opts if o != cur])
 
 
 def kv(rng, p=0.4):
     return [[a, rng.choice(["1", "x", "on"])] for a in ANAMES if rng.random() < p]
 
 
-def gen_sig(rng, name):
+def gen_sig(rng, name, length=8):
     mux = rng.choice(["None", "None", "None", "Multiplexor", "0", "3"])
-    return {"name": name, "start": rng.randint(0, 40), "size": rng.randint(1, 16), "factor": rng.choice([1, 2, 3, 5, -2, BIG]),
+    # in a frame longer than 8 bytes a signal may start anywhere in it
+    start = rng.randint(0, 40) if length <= 8 or rng.random() < 0.5 else rng.randint(0, length * 8 - 1)
+    return {"name": name, "start": start, "size": rng.randint(1, 16), "factor": rng.choice([1, 2, 3, 5, -2, BIG]),
             "offset": rng.choice([0, 0, 1, -80, BIG]), "min": rng.choice([0, -10, 2, -BIG]), "max": rng.choice([100, 255, 7, BIG]),
             "little": rng.random() < 0.5, "signed": rng.random() < 0.5, "multiplex": mux, "unit": rng.choice(["", "km/h", "V"]),
             "comment": rng.choice([None, "c1", "speed of car"]), "receivers": rng.sample(ECUS, rng.choice([0, 1, 2])),
             "attrs": kv(rng, 0.3), "values": [[k, rng.choice(["On", "Off", "Err", "ge\u00f6ffnet", "10 \u00b5s"])] for k in rng.sample(range(6), rng.choice([0, 0, 2, 3]))]}
 
 
+def overlay(rng, s, on):
+    """s takes the place of the signal `on` (same start bit, width and byte order), as the signals of different multiplexer groups
+    do; three times in four it belongs to another multiplexer group than `on`, otherwise the two simply overlap"""
+    s["start"], s["size"], s["little"] = on["start"], on["size"], on["little"]
+    if rng.random() < 0.75:
+        if on["multiplex"] in ("None", "Multiplexor"):
+            on_group = None
+        else:
+            on_group = on["multiplex"]
+        s["multiplex"] = rng.choice([g for g in ("0", "1", "3", "4") if g != on_group])
+    return s
+
+
 def gen_frame(rng, name, i, ext):
-    sigs = [gen_sig(rng, "s%d" % k) for k in range(rng.randint(0, 3))]
+    length = gen_length(rng)
+    sigs = []
+    for k in range(rng.randint(0, 3)):
+        s = gen_sig(rng, "s%d" % k, length)
+        if sigs and rng.random() < 0.25:
+            overlay(rng, s, rng.choice(sigs))
+        sigs.append(s)
     names = [s["name"] for s in sigs]
     groups = [["grp%d" % g, g, rng.sample(names, rng.randint(0, len(names)))] for g in range(rng.choice([0, 0, 1, 2]))]
-    return {"name": name, "id": i, "ext": ext, "size": rng.choice([1, 2, 8, 8, 12]), "comment": rng.choice([None, "", "fc", "frame comment"]),
+    return {"name": name, "id": i, "ext": ext, "size": length, "comment": rng.choice([None, "", "fc", "frame comment"]),
             "tx": rng.sample(ECUS, rng.choice([0, 1, 2])), "attrs": kv(rng), "sigs": sigs, "groups": groups}
 
 
@@ -85,7 +125,7 @@ def edit(rng, a):
     kind = rng.choice(["frame", "frame", "signal", "signal", "signal", "ecu", "def", "gattr", "vt"])
     other = lambda cur, opts: rng.choice([o for o in opts if o != cur])  # noqa
     if kind == "frame":
-        what = rng.choice(["add", "del", "size", "id", "ext", "name", "comment", "tx+", "tx-", "attr", "group+", "group-", "groupmember", "groupid"])
+        what = rng.choice(["add", "del", "size", "size", "id", "ext", "name", "comment", "tx+", "tx-", "attr", "group+", "group-", "groupmember", "groupid"])
         if what == "add":
             twins = [f for f in b["frames"] if f["id"] <= 0x7FF and not any(g["id"] == f["id"] and g["ext"] != f["ext"] for g in b["frames"])]
             if twins and rng.random() < 0.4:
@@ -93,7 +133,14 @@ def edit(rng, a):
                 t = rng.choice(twins)
                 b["frames"].append(gen_frame(rng, "Ftwin", t["id"], not t["ext"]))
                 return b, "frame.add-twin"
-            b["frames"].append(gen_frame(rng, "Fnew", 0x77, False))
+            new = gen_frame(rng, "Fnew", 0x77, False)
+            if b["frames"] and rng.random() < 0.3:
+                # the new frame is a copy of an existing one (under its own name and identifier): it agrees with that frame on
+                # everything but what makes it another frame
+                t = pycopy.deepcopy(rng.choice(b["frames"]))
+                t["name"], t["id"], t["ext"] = new["name"], new["id"], new["ext"]
+                new = t
+            b["frames"].append(new)
             return b, "frame.add"
         if not b["frames"]:
             return None, None
@@ -101,7 +148,7 @@ def edit(rng, a):
         if what == "del":
             b["frames"].remove(f)
         elif what == "size":
-            f["size"] = other(f["size"], [1, 2, 8, 12, 16])
+            f["size"] = other_length(rng, f["size"])
         elif what == "id":
             f["id"] = 0x55 if not f["ext"] else 0x18AA0000
         elif what == "ext":
@@ -124,7 +171,11 @@ def edit(rng, a):
         elif what == "attr":
             return attr_edit(rng, f["attrs"], b, "frame.attr")
         elif what == "group+":
-            f["groups"].append(["grpNew", 9, [s["name"] for s in f["sigs"]][:1]])
+            if f["groups"] and rng.random() < 0.4:
+                g = rng.choice(f["groups"])
+                f["groups"].append(["grpNew", g[1], list(g[2])])         # a second group with the id and members of an existing one
+            else:
+                f["groups"].append(["grpNew", 9, [s["name"] for s in f["sigs"]][:1]])
         elif what == "group-":
             if not f["groups"]:
                 return None, None
@@ -145,20 +196,45 @@ def edit(rng, a):
         if not fs:
             return None, None
         f = rng.choice(fs)
-        what = rng.choice(["add", "del", "start", "size", "factor", "offset", "min", "max", "little", "signed", "multiplex", "mux0", "unit",
-                           "comment", "rx+", "rx-", "attr", "val+", "val-", "valchg"])
+        what = rng.choice(["add", "add", "del", "del", "name", "start", "size", "factor", "offset", "min", "max", "little", "signed", "multiplex", "mux0",
+                           "unit", "comment", "rx+", "rx-", "attr", "val+", "val-", "valchg"])
         if what == "add":
-            f["sigs"].append(gen_sig(rng, "snew"))
+            new = gen_sig(rng, "snew", f["size"])
+            r = rng.random()
+            if f["sigs"] and r < 0.3:
+                # the new signal takes the bits of an existing one (one more multiplexer group, or an overlapping signal)
+                overlay(rng, new, rng.choice(f["sigs"]))
+                f["sigs"].append(new)
+                return b, "signal.add-overlay"
+            if f["sigs"] and r < 0.5:
+                # the new signal is a copy of an existing one under another name, optionally in another multiplexer group
+                new = pycopy.deepcopy(rng.choice(f["sigs"]))
+                new["name"] = "snew"
+                if rng.random() < 0.5:
+                    overlay(rng, new, pycopy.deepcopy(new))
+                f["sigs"].append(new)
+                return b, "signal.add-copy"
+            f["sigs"].append(new)
             return b, "signal.add"
         if not f["sigs"]:
             return None, None
         s = rng.choice(f["sigs"])
         if what == "del":
+            # (half of the time) a signal that shares its bits with another signal of the frame, if there is one
+            shared = [x for x in f["sigs"] if any(y is not x and (y["start"], y["size"], y["little"]) == (x["start"], x["size"], x["little"])
+                                                  for y in f["sigs"])]
+            if shared and rng.random() < 0.5:
+                s = rng.choice(shared)
             f["sigs"].remove(s)
             for g in f["groups"]:
                 if s["name"] in g[2]:
                     g[2].remove(s["name"])
             # removing the member from the groups is part of deleting the signal; still a single user-level edit
+        elif what == "name":
+            # a renamed signal is another member of the signal set (its groups name it by the new name)
+            for g in f["groups"]:
+                g[2][:] = [s["name"] + "_renamed" if n == s["name"] else n for n in g[2]]
+            s["name"] = s["name"] + "_renamed"
         elif what in ("start", "size"):
             s[what] += 1
         elif what in ("factor", "offset", "min", "max"):
@@ -204,7 +280,11 @@ def edit(rng, a):
     if kind == "ecu":
         what = rng.choice(["add", "del", "comment", "attr"])
         if what == "add":
-            b["ecus"].append(["EcuNew", None, []])
+            if b["ecus"] and rng.random() < 0.4:
+                e = rng.choice(b["ecus"])
+                b["ecus"].append(["EcuNew", e[1], pycopy.deepcopy(e[2])])      # a copy of an existing ECU under another name
+            else:
+                b["ecus"].append(["EcuNew", None, []])
             return b, "ecu.add"
         if not b["ecus"]:
             return None, None
@@ -222,7 +302,11 @@ def edit(rng, a):
         key = rng.choice(["gd", "ed", "fd", "sd"])
         what = rng.choice(["add", "del", "definition", "default"])
         if what == "add":
-            b[key].append(["NewDef", "INT 0 1", None])
+            if b[key] and rng.random() < 0.4:
+                d = rng.choice(b[key])
+                b[key].append(["NewDef", d[1], d[2]])                           # a copy of an existing definition under another name
+            else:
+                b[key].append(["NewDef", "INT 0 1", None])
             return b, "def.add"
         if not b[key]:
             return None, None
@@ -244,7 +328,10 @@ def edit(rng, a):
     if kind == "vt":
         what = rng.choice(["add", "del", "chg"])
         if what == "add":
-            b["vt"].append(["VTnew", [[0, "z"]]])
+            if b["vt"] and rng.random() < 0.4:
+                b["vt"].append(["VTnew", pycopy.deepcopy(rng.choice(b["vt"])[1])])   # a copy of an existing table under another name
+            else:
+                b["vt"].append(["VTnew", [[0, "z"]]])
             return b, "vt.add"
         if not b["vt"]:
             return None, None
